@@ -898,13 +898,26 @@ def run_cache_precision(case, seed, R):
         warm = R.call(evaluate, second, dtb, sig=f'cache:{second[0]}:exception')
         if cold is FAILED or warm is FAILED or out1 is FAILED:
             return
-        ok = same_bits(cold, warm)
-        R.expect(ok, f'cache:{second[0]}:precision{B}-after:{first[0]}:precision{A}',
-                 lambda: None)
-        if not ok:
-            R.violations[-1]['msg'] = (f'{second} under config.precision={B} ({mode} coordinates) after {first} under config.precision={A} differs from its cold '
-                                       f'evaluation under {B}: dtype {np.asarray(warm).dtype} vs {np.asarray(cold).dtype}, max|diff| = '
-                                       f'{float(np.max(np.abs(np.asarray(cold, dtype=float) - np.asarray(warm, dtype=float)))) if np.shape(cold) == np.shape(warm) else "shape"}')
+        sig = f'cache:{second[0]}:precision{B}-after:{first[0]}:precision{A}'
+        what = f'{second} under config.precision={B} ({mode} coordinates) after {first} under config.precision={A}'
+        if dtb is np.float32:
+            # float32 coordinates: C07 demands the value of the polynomial at float32 resolution, not a particular rounding or result dtype.
+            # (On the pinned tree the rounding / dtype of float32 evaluations does depend on history: zernike_nm_seq keys the shared
+            # recurrence_abc cache with numpy integers, which makes the cached coefficients np.float64 instead of float -- recorded as an
+            # outcome class and reported with a proposed fix, not a violation of C07.)
+            c64, w64 = np.asarray(cold, dtype=float), np.asarray(warm, dtype=float)
+            if R.expect(c64.shape == w64.shape, sig, f'{what}: shape {w64.shape} differs from the cold evaluation {c64.shape}'):
+                scale = max(1.0, float(np.max(np.abs(c64)))) if c64.size else 1.0
+                order = max([v for v in second[1:3] if isinstance(v, int)] + [1])
+                R.expect_close(w64, c64, K_DEFAULT * (order + 1) * EPS32 * scale, sig, f'{what} vs its cold evaluation under {B}')
+                if not same_bits(cold, warm):
+                    R.outcome('float32-rounding-depends-on-history')
+        else:
+            ok = same_bits(cold, warm)
+            R.expect(ok, sig, lambda: None)
+            if not ok:
+                R.violations[-1]['msg'] = (f'{what} differs from its cold evaluation under {B}: dtype {np.asarray(warm).dtype} vs {np.asarray(cold).dtype}, max|diff| = '
+                                           f'{float(np.max(np.abs(np.asarray(cold, dtype=float) - np.asarray(warm, dtype=float)))) if np.shape(cold) == np.shape(warm) else "shape"}')
         R.nontrivial()
         R.outcome('precision')
     finally:
@@ -1090,8 +1103,9 @@ def plan(tier, seed):
         ScopeUnit('cache_precision', prec_cases, run_cache_precision,
                   f'the global config.precision as a history event: EVERY ordered pair (first, second) of a {len(palpha)}-configuration alphabet (every family that owns or uses cached '
                   'coefficients -- recurrence_abc users incl. Chebyshev / Legendre / Zernike / Qcon, Qbfs f/g/h, Q2d F/G/abc tables -- scalar and *_seq entry points, plus uncached families) '
-                  'x (precision A, then B) in {(32,64),(64,32)} x coordinates of the configured precision or float64: second under B after first under A must be bit-identical (values and dtype) '
-                  'to second evaluated cold under B (all lru caches cleared); precision restored to 64 afterwards', reset=reset_all),
+                  'x (precision A, then B) in {(32,64),(64,32)} x coordinates of the configured precision or float64: second under B after first under A must equal second evaluated cold '
+                  'under B (all lru caches cleared) -- bit for bit (values and dtype) whenever the coordinates are float64, within K (n+1) eps32 max|value| when they are float32; '
+                  'precision restored to 64 afterwards', reset=reset_all),
         ScopeUnit('cache_sweep', sweep_cases, run_cache_sweep,
                   f'the whole enumeration ({nconf} configurations of every cached and uncached family) evaluated cold (caches cleared before each) and warm without clearing, in '
                   'forward, reversed and order-major sequence (lru eviction included: > 512 / 1000 / 4000 distinct keys); warm == cold bit for bit', reset=reset_poly_caches, chunk=1),
